@@ -431,7 +431,7 @@ func c20Build(t *rapid.T, g *c20Gen) *types.Block {
 	return &types.Block{Header: hd, Transactions: g.txs}
 }
 
-const c20Rule = "blocks with 0..12 generated signed txs (deploy/invoke/EIP-155), generated header fields, 0..7 bookkeepers of all key kinds with real or arbitrary signatures; tx-list mutants (swap, permute, duplicate, drop, replace, count tamper, duplication of the odd tail at every merkle level) with and without a recomputed root; header field / signer edits; alternative accepted key encodings and hostile counts in the header; byte mutants and spliced arbitrary bytes; blocks and headers re-written by an independent encoder with 1..3 length prefixes (consensus payload, bookkeeper count, each bookkeeper key, signature count, each signature, every length field inside each tx incl. the EIP-155 wrapper) widened to a drawn non-minimal FD/FE/FF form, with canonical and alternative key blobs; non-trivial = block with >=2 txs, any mutant, or an arbitrary input that decodes; distinct = different bytes/edit"
+const c20Rule = "blocks with 0..12 generated signed txs (deploy/invoke/EIP-155), generated header fields, 0..7 bookkeepers of all key kinds with real or arbitrary signatures; tx-list mutants (swap, permute, duplicate, drop, replace, count tamper, duplication of the odd tail at every merkle level) with and without a recomputed root; header field / signer edits; alternative accepted key encodings and hostile counts in the header; byte mutants and spliced arbitrary bytes; blocks and headers re-written by an independent encoder with 1..3 length prefixes (consensus payload, bookkeeper count, each bookkeeper key, signature count, each signature, every length field inside each tx incl. the EIP-155 wrapper) widened to a drawn non-minimal FD/FE/FF form, with canonical and alternative key blobs; held results: sequences of 2-7 blocks (struct encoded, BlockFromRawBytes, HeaderFromRawBytes, RawHeader; fresh ones and relatives of an earlier block with the same height and one header field, the signer list or the tx list edited, or exact duplicates) whose ToArray/GetRawHeader/Hash results and decoded fields are held to the end of the case next to private copies, optionally with joined goroutines, then re-read, recomputed, decoded again and checked against overwritten caller buffers; non-trivial = block with >=2 txs, any mutant, an arbitrary input that decodes, or a held sequence with >=2 different encodings; distinct = different bytes/edit"
 
 // ---------------------------------------------------------------------------------------------
 
